@@ -60,6 +60,8 @@ def spec_thr(draw, tier):
     mw = [b for b in bs if b["type"] == "meta"]
     if mw and draw(st.booleans()):
         mw[0]["mw"] = True
+        # hills are written at every step, peers are read every ruf-th step: the bias needs the main thread at all of them
+        mw[0]["ruf"] = draw(st.sampled_from([1, 2, 4]))
     n = sysd["natoms"]
     moves = [[[rnd(draw(fl(-0.15, 0.15)), 3) for _ in range(3)] for _ in range(n)] for _ in range(T)]
     return {"sys": sysd, "cvs": cvs, "biases": bs, "moves": moves, "nthreads": draw(st.integers(2, 8)),
@@ -71,7 +73,7 @@ def render_b(b, cvs, values):
     if b["type"] == "meta":
         return "metadynamics {\n  name %s\n  colvars %s\n  hillWeight 0.1\n  hillWidth 2.0\n  newHillFrequency 1\n  useGrids off\n%s}" % (
             b["name"], cvs[b["cvs"][0]]["name"],
-            "  multipleReplicas on\n  replicaID r0\n  replicasRegistry registry.txt\n  replicaUpdateFrequency 1\n" if b.get("mw") else "")
+            "  multipleReplicas on\n  replicaID r0\n  replicasRegistry registry.txt\n  replicaUpdateFrequency %d\n" % b.get("ruf", 1) if b.get("mw") else "")
     if b["type"] == "histogram":
         v = values[b["cvs"][0]][0]
         return "histogram {\n  name %s\n  colvars %s\n  grid {\n    width 1.0\n    lowerBoundary %s\n    upperBoundary %s\n  }\n}" % (
